@@ -1242,3 +1242,61 @@ fn c10_read_bytes_index() {
         i += 1;
     }
 }
+
+// ------------------------------------------------------------------------------------------
+// C07 / C05: parse_num - how the JSON reader classifies number literals (points; the literals
+// are in the harness text, the lexer is hifijson's real SliceLexer)
+// ------------------------------------------------------------------------------------------
+fn is_dec(r: &Result<Num, hifijson::Error>, text: &str) -> bool {
+    matches!(r, Ok(Num::Dec(s)) if s.as_str() == text)
+}
+/// literals with an exponent and no dot are decimals kept character for character
+#[kani::proof]
+#[kani::unwind(12)]
+fn c07_parse_num_exp() {
+    assert!(is_dec(&MD::new(crate::read::verif_parse_num(b"1e1000")), "1e1000"));
+    assert!(is_dec(&MD::new(crate::read::verif_parse_num(b"1E2")), "1E2"));
+    assert!(is_dec(&MD::new(crate::read::verif_parse_num(b"-2e-3")), "-2e-3"));
+}
+/// literals with a fraction are decimals kept character for character (trailing zero included)
+#[kani::proof]
+#[kani::unwind(12)]
+fn c07_parse_num_frac() {
+    assert!(is_dec(&MD::new(crate::read::verif_parse_num(b"1.10")), "1.10"));
+    assert!(is_dec(&MD::new(crate::read::verif_parse_num(b"-0.0")), "-0.0"));
+    assert!(is_dec(&MD::new(crate::read::verif_parse_num(b"1.5e3")), "1.5e3"));
+}
+/// a sign alone, or a literal ending in `.` / `e`, is a reported error - never a panic
+#[kani::proof]
+#[kani::unwind(12)]
+fn c07_parse_num_reject() {
+    assert!(MD::new(crate::read::verif_parse_num(b"-")).is_err());
+    assert!(MD::new(crate::read::verif_parse_num(b"+")).is_err());
+    assert!(MD::new(crate::read::verif_parse_num(b"1.")).is_err());
+    assert!(MD::new(crate::read::verif_parse_num(b"1e")).is_err());
+    assert!(MD::new(crate::read::verif_parse_num(b"-]")).is_err());
+}
+/// signed infinities
+#[kani::proof]
+#[kani::unwind(12)]
+fn c07_parse_num_inf() {
+    assert!(matches!(&*MD::new(crate::read::verif_parse_num(b"+Infinity")), Ok(Num::Float(f)) if *f == f64::INFINITY));
+    assert!(matches!(&*MD::new(crate::read::verif_parse_num(b"-Infinity")), Ok(Num::Float(f)) if *f == f64::NEG_INFINITY));
+}
+static mut RADIX_ARG: Option<(usize, u8, u8, u32)> = None;
+/// ghost stub for `Num::from_str_radix` (the integer parser itself is `core` / num-bigint)
+fn from_str_radix_stub(i: &str, radix: u32) -> Option<Num> {
+    let b = i.as_bytes();
+    unsafe { RADIX_ARG = Some((b.len(), b[0], b[b.len() - 1], radix)) };
+    Some(Num::Int(77))
+}
+/// integer literals go to the integer parser whole (sign included), in base 10, and its answer
+/// is returned
+#[kani::proof]
+#[kani::unwind(12)]
+#[kani::stub(Num::from_str_radix, from_str_radix_stub)]
+fn c07_parse_num_int() {
+    let r = MD::new(crate::read::verif_parse_num(b"-120 "));
+    assert!(matches!(&*r, Ok(Num::Int(77))));
+    assert!(unsafe { RADIX_ARG } == Some((4, b'-', b'0', 10)));
+}
